@@ -207,12 +207,23 @@ def jsonable(x):
     return repr(x)
 
 
+def _out_dir(kind):
+    """evidence/ and replays/ under /verif describe runs of the whole check on /repo.  Experiments (another tree through
+    VERIF_REPO, or a job filter) write to a scratch directory instead, so that they never replace the real files."""
+    repo = os.environ.get('VERIF_REPO')
+    if (repo and os.path.realpath(repo) != '/repo') or os.environ.get('VERIF_JOBFILTER'):
+        d = os.path.join(os.environ.get('VERIF_SCRATCH') or '/tmp/verif_scratch', kind)
+    else:
+        d = os.path.join(VERIF, kind)
+    os.makedirs(d, exist_ok=True)
+    return d
+
+
 def write_replay(pid, v):
-    os.makedirs(os.path.join(VERIF, 'replays'), exist_ok=True)
     doc = {'property': pid, 'key': v['key'], 'what': v['what'], 'count': v['count'],
            'case': jsonable(v['detail'])}
     digest = hashlib.blake2b(json.dumps(doc, sort_keys=True).encode(), digest_size=6).hexdigest()
-    path = os.path.join(VERIF, 'replays', f'{pid}-{digest}.json')
+    path = os.path.join(_out_dir('replays'), f'{pid}-{digest}.json')
     with open(path, 'w') as f:
         json.dump(doc, f, indent=1, sort_keys=True)
     return path
@@ -273,8 +284,7 @@ def finish(pid, tier, seed, level, total, wall, rule, assumptions, extra=None):
         'coverage': cov, 'assumptions': assumptions, 'wall_s': round(wall, 2),
         'violations': len(fresh),
     }
-    os.makedirs(os.path.join(VERIF, 'evidence'), exist_ok=True)
-    with open(os.path.join(VERIF, 'evidence', f'{pid}.json'), 'w') as f:
+    with open(os.path.join(_out_dir('evidence'), f'{pid}.json'), 'w') as f:
         json.dump(ev, f, indent=1)
     ok = not fresh and not harness_errors
     if ok and (total.evaluations < 1 or nontrivial < 2):
